@@ -3,7 +3,7 @@
 import json, os
 
 IMPLEMENTED = os.environ.get("VERIF_IMPLEMENTED", "").split() or [
-    "C01", "C02", "C03", "C04", "C05", "C06", "C08", "C10", "C07", "C09", "C11", "C12", "C13", "C14", "C15", "C16", "C17", "C19", "C20",
+    "C01", "C02", "C03", "C04", "C05", "C06", "C08", "C10", "C07", "C09", "C11", "C12", "C13", "C14", "C15", "C16", "C17", "C18", "C19", "C20",
 ]
 
 ENGINE = {
@@ -152,6 +152,16 @@ CHECKS = {
             "sentinel inspects), not time.",
             "runtime monitoring: event-order monitor (inspect log vs deletions/callbacks) with scripted runtime faults",
             "3 (C17)", "Trusted: the fake runtimes; cleanupVeth (netlink) is not monitored."),
+    "C18": ("exploration",
+            "Generation-based fuzzing of six surfaces of the real code in child processes (scheduler-plugin entry points with "
+            "hostile pods incl. ranges ending at 255.255.255.255; the HTTP API; watched objects; configuration text; galaxy's "
+            "/cni handler and parsers; every valid NetworkPolicy through the policy manager): each input is journalled before "
+            "the call, panics are recovered at the surface boundary (violation), a watchdog (10 s, 30 s for /cni ADD) dumps the "
+            "goroutines and the parent classifies wedged-in-galaxy (violation) vs starved (inconclusive, re-run alone), and after "
+            "every call a lock probe on the same instance must return.",
+            "runtime monitoring: fuzzing under a watchdog with panic recovery and lock probes in journalled child processes",
+            "3 (C18)", "Wall-clock watchdogs are the sanctioned exception (the property is about termination). No coverage feedback. "
+            "Objects a real API server cannot deliver (Deployment with nil replicas, CRD without versions) are exercised but only counted."),
     "C19": ("exploration",
             "Go race detector over child processes running: every galaxy-ipam entry point concurrently on one plugin instance (mix), "
             "sized-pool and reload rounds, bare IPAM stress with a linearizability-checked history, and the race-built cnisim "
